@@ -79,7 +79,37 @@ def _matches(m: dict, ctx: Any, case: dict, v: dict) -> bool:
             return False
     if "layout" in m and case.get("layout", "normal") not in m["layout"]:
         return False
+    if "empty_domain" in m and not _has_empty_domain(m["empty_domain"], ctx, v, step, blame.get("iter", v.get("iter")), added):
+        return False
     return True
+
+
+def _has_empty_domain(rx: str, ctx: Any, v: dict, step: Any, it: Any, added: list) -> bool:
+    """observational part of a finding about an empty candidate domain: one of the predicates that the blamed step
+    introduced and whose name matches rx has no atom in the answer sets of the blamed stage with the failing instance"""
+    from . import oracle
+
+    pat = re.compile(rx)
+    names = set()
+    for stm in added:
+        mm = re.match(r"([A-Za-z_][A-Za-z_0-9]*)\(", stm)
+        if mm and pat.fullmatch(mm.group(1)):
+            names.add(mm.group(1))
+    rec = ctx.rec
+    if not names or rec is None or v.get("instance") is None:
+        return False
+    text = None
+    for st in rec.stages:
+        if st["name"] == step and st["iter"] == it:
+            text = "\n".join(st["stmts"])
+            break
+    if text is None:
+        return False
+    res = oracle.solve(text, v["instance"], ctx.consts, max_models=1)
+    if not res.models:
+        return False
+    present = {a[0] for a in res.models[0][0]}
+    return any(n not in present for n in names)
 
 
 def _cured_by(repair: str, ctx: Any, case: dict, v: dict) -> bool:
